@@ -332,3 +332,510 @@ Section RcCommuteNum.
     rc_spec z K comp (into_scoring O flog2 bg m) = into_scoring O flog2 bg (rc_spec z K comp m).
   Proof. intros. unfold into_scoring. apply rc_rowwise_map2; assumption. Qed.
 End RcCommuteNum.
+
+(* ---------- reverse complement commutes with to_freq (order-insensitive addition) ---------- *)
+
+From Coq Require Import Permutation.
+
+Lemma fold_left_perm {T} (add : T -> T -> T)
+  (add_comm : forall a b, add a b = add b a)
+  (add_assoc : forall a b c, add (add a b) c = add a (add b c)) :
+  forall l l', Permutation l l' -> forall z, fold_left add l z = fold_left add l' z.
+Proof.
+  induction 1; intros z; simpl; auto.
+  - f_equal. rewrite !add_assoc. f_equal. apply add_comm.
+  - rewrite IHPermutation1. apply IHPermutation2.
+Qed.
+
+Lemma NoDup_map_inj_on {A B} (f : A -> B) l :
+  NoDup l -> (forall x y, In x l -> In y l -> f x = f y -> x = y) -> NoDup (map f l).
+Proof.
+  induction 1 as [|a l Hna Hnd IH]; intros Hinj; simpl; constructor.
+  - intro Hin. apply in_map_iff in Hin. destruct Hin as [y [Hy Hyl]].
+    assert (y = a) by (apply Hinj; simpl; auto). subst. contradiction.
+  - apply IH. intros x y Hx Hy. apply Hinj; simpl; auto.
+Qed.
+
+Lemma map_nth_seq {A} (row : list A) d : map (fun k => nth k row d) (seq 0 (length row)) = row.
+Proof.
+  apply (nth_ext _ _ d d).
+  - rewrite map_length, seq_length. reflexivity.
+  - intros i Hi. rewrite map_length, seq_length in Hi.
+    rewrite (nth_indep _ d (nth 0 row d)) by (rewrite map_length, seq_length; exact Hi).
+    rewrite (map_nth (fun k => nth k row d) (seq 0 (length row)) 0 i). rewrite seq_nth by exact Hi. reflexivity.
+Qed.
+
+Section RcPerm.
+  Context {A : Type}.
+  Variable dflt : A.
+  Variable K : nat.
+  Variable comp : nat -> nat.
+  Hypothesis comp_lt : forall k, k < K -> comp k < K.
+  Hypothesis comp_inv : forall k, k < K -> comp (comp k) = k.
+
+  Lemma comp_seq_perm : Permutation (map comp (seq 0 K)) (seq 0 K).
+  Proof.
+    apply NoDup_Permutation_bis.
+    - apply NoDup_map_inj_on; [apply seq_NoDup|].
+      intros x y Hx Hy Hxy. apply in_seq in Hx. apply in_seq in Hy.
+      rewrite <- (comp_inv x), <- (comp_inv y) by lia. rewrite Hxy. reflexivity.
+    - rewrite map_length. apply le_n.
+    - intros x Hx. apply in_map_iff in Hx. destruct Hx as [y [<- Hy]].
+      apply in_seq in Hy. apply in_seq. split; [lia|]. simpl. apply comp_lt. lia.
+  Qed.
+
+  Lemma rc_row_spec_perm row : length row = K -> Permutation (rc_row_spec dflt K comp row) row.
+  Proof.
+    intros Hl. unfold rc_row_spec.
+    rewrite <- (map_map comp (fun k => nth k row dflt)).
+    pose proof (map_nth_seq row dflt) as E. rewrite Hl in E.
+    apply (Permutation_trans (l' := map (fun k => nth k row dflt) (seq 0 K))).
+    - apply Permutation_map. exact comp_seq_perm.
+    - rewrite E. apply Permutation_refl.
+  Qed.
+End RcPerm.
+
+Lemma rc_row_spec_map2_both {A B C} (da : A) (db : B) (dc : C) K comp
+  (comp_lt : forall k, k < K -> comp k < K) (g : A -> B -> C) a b :
+  length a = K -> length b = K ->
+  rc_row_spec dc K comp (map2 g a b) = map2 g (rc_row_spec da K comp a) (rc_row_spec db K comp b).
+Proof.
+  intros Ha Hb. apply (nth_ext _ _ dc dc).
+  - rewrite rc_row_spec_length, map2_length, !rc_row_spec_length. symmetry; apply Nat.min_id.
+  - intros k Hk. rewrite rc_row_spec_length in Hk.
+    rewrite nth_rc_row_spec by exact Hk.
+    rewrite (nth_map2 g a b (comp k) dc da db) by (rewrite ?Ha, ?Hb; apply comp_lt; exact Hk).
+    rewrite (nth_map2 g _ _ k dc da db) by (rewrite rc_row_spec_length; exact Hk).
+    rewrite !nth_rc_row_spec by exact Hk. reflexivity.
+Qed.
+
+Section RcFreq.
+  Context {T : Type}.
+  Variable O : NumOps T.
+  Variable K : nat.
+  Variable comp : nat -> nat.
+  Hypothesis comp_lt : forall k, k < K -> comp k < K.
+  Hypothesis comp_inv : forall k, k < K -> comp (comp k) = k.
+  Hypothesis add_comm : forall a b, n_add O a b = n_add O b a.
+  Hypothesis add_assoc : forall a b c, n_add O (n_add O a b) c = n_add O a (n_add O b c).
+  Let z := n_zero O.
+
+  Lemma rc_to_freq_row p r : length p = K -> length r = K ->
+    rc_row_spec z K comp (to_freq_row O p r)
+    = to_freq_row O (rc_row_spec z K comp p) (rc_row_spec 0%N K comp r).
+  Proof.
+    intros Hp Hr. unfold to_freq_row.
+    assert (Hd : length (map2 (fun x q => n_add O (n_of_N O x) q) r p) = K)
+      by (rewrite map2_length, Hp, Hr; apply Nat.min_id).
+    rewrite (rc_row_spec_map z z K comp comp_lt) by exact Hd.
+    rewrite (rc_row_spec_map2_both 0%N z z K comp comp_lt) by assumption.
+    set (dst' := map2 _ (rc_row_spec 0%N K comp r) (rc_row_spec z K comp p)).
+    set (dst := map2 _ r p).
+    assert (Hs : fsum O dst' = fsum O dst).
+    { unfold fsum. apply (fold_left_perm (n_add O) add_comm add_assoc).
+      unfold dst', dst. rewrite <- (rc_row_spec_map2_both 0%N z z K comp comp_lt) by assumption.
+      apply rc_row_spec_perm; assumption. }
+    rewrite Hs. reflexivity.
+  Qed.
+
+  Lemma rc_to_freq p m :
+    length p = K -> Forall (fun row => length row = K) m ->
+    rc_spec z K comp (to_freq O p m)
+    = to_freq O (rc_row_spec z K comp p) (rc_spec 0%N K comp m).
+  Proof.
+    intros Hp Hm. unfold to_freq, rc_spec. rewrite <- !map_rev, !map_map.
+    apply map_ext_in. intros row Hr. apply rc_to_freq_row; [exact Hp|].
+    rewrite Forall_forall in Hm. apply Hm. apply in_rev. exact Hr.
+  Qed.
+
+  Lemma to_freq_rows p m : length p = K -> Forall (fun row => length row = K) m ->
+    Forall (fun row => length row = K) (to_freq O p m).
+  Proof.
+    intros Hp Hm. unfold to_freq. apply Forall_forall. intros r Hr.
+    apply in_map_iff in Hr. destruct Hr as [x [<- Hx]].
+    unfold to_freq_row. rewrite map_length, map2_length, Hp.
+    rewrite Forall_forall in Hm. rewrite (Hm x Hx). apply Nat.min_id.
+  Qed.
+End RcFreq.
+
+(* ---------- counting ---------- *)
+
+Section CountProofs.
+  Variable K : nat.
+
+  Definition cwf (L : nat) (d : cmatrix) : Prop := length d = L /\ Forall (fun r => length r = K) d.
+  Definition cell (d : cmatrix) (i k : nat) : N := nth k (nth i d []) 0%N.
+  Definition seq_wf (s : list nat) : Prop := Forall (fun x => x < K) s.
+
+  Lemma czero_wf L : cwf L (czero K L).
+  Proof. split; [apply repeat_length|]. apply Forall_repeat. apply repeat_length. Qed.
+
+  Lemma czero_cell L i k : cell (czero K L) i k = 0%N.
+  Proof.
+    unfold cell, czero.
+    destruct (Nat.ltb_spec i L).
+    - rewrite nth_repeat_lt by assumption.
+      destruct (Nat.ltb_spec k K); [apply nth_repeat_lt; assumption|].
+      apply nth_overflow. rewrite repeat_length. assumption.
+    - rewrite (nth_overflow (repeat (repeat 0%N K) L) []) by (rewrite repeat_length; assumption). destruct k; reflexivity.
+  Qed.
+
+  Lemma incr_cell_wf L d i x : i < L -> cwf L d -> cwf L (incr_cell d i x).
+  Proof.
+    intros Hi [Hl Hr]. unfold incr_cell. split; [rewrite upd_length; exact Hl|].
+    apply Forall_upd; [exact Hr|]. rewrite upd_length.
+    rewrite Forall_forall in Hr. apply Hr. apply nth_In. lia.
+  Qed.
+
+  Lemma incr_cell_cell L d i x i' k' : i < L -> x < K -> cwf L d ->
+    cell (incr_cell d i x) i' k' = (cell d i' k' + (if ((i' =? i) && (k' =? x))%nat then 1 else 0))%N.
+  Proof.
+    intros Hi Hx [Hl Hr]. unfold cell, incr_cell.
+    assert (Hrow : length (nth i d []) = K).
+    { rewrite Forall_forall in Hr. apply Hr. apply nth_In. lia. }
+    destruct (Nat.eqb_spec i' i) as [->|Hne]; simpl.
+    - rewrite nth_upd_same by lia.
+      destruct (Nat.eqb_spec k' x) as [->|Hk].
+      + rewrite nth_upd_same by lia. reflexivity.
+      + rewrite nth_upd_other by auto. lia.
+    - rewrite nth_upd_other by auto. lia.
+  Qed.
+
+  Lemma add_seq_from_spec L : forall s d i0, cwf L d -> seq_wf s -> i0 + length s <= L ->
+    cwf L (add_seq_from d i0 s) /\
+    forall i k, cell (add_seq_from d i0 s) i k
+                = (cell d i k + (if ((i0 <=? i) && (match nth_error s (i - i0) with Some x => x =? k | None => false end))%nat
+                                 then 1 else 0))%N.
+  Proof.
+    induction s as [|x r IH]; intros d i0 Hd Hs Hlen; simpl in *.
+    - split; [exact Hd|]. intros i k. destruct (i - i0); rewrite andb_false_r; lia.
+    - inversion Hs as [|? ? Hx Hr]; subst.
+      assert (Hd' : cwf L (incr_cell d i0 x)) by (apply incr_cell_wf; [lia | exact Hd]).
+      destruct (IH (incr_cell d i0 x) (S i0) Hd' Hr ltac:(lia)) as [Hwf Hc].
+      split; [exact Hwf|]. intros i k. rewrite Hc.
+      rewrite (incr_cell_cell L) by (try lia; assumption).
+      destruct (Nat.leb_spec (S i0) i) as [Hlt|Hge].
+      + assert (Hle : (i0 <=? i) = true) by (apply Nat.leb_le; lia). rewrite Hle.
+        assert (Hne : (i =? i0) = false) by (apply Nat.eqb_neq; lia). rewrite Hne. simpl.
+        replace (i - i0) with (S (i - S i0)) by lia. simpl. lia.
+      + simpl. destruct (Nat.eqb_spec i i0) as [->|Hne].
+        * rewrite Nat.leb_refl, Nat.sub_diag. simpl.
+          rewrite (Nat.eqb_sym k x). destruct (x =? k); lia.
+        * assert (Hle : (i0 <=? i) = false) by (apply Nat.leb_gt; lia). rewrite Hle. simpl. lia.
+  Qed.
+
+  Lemma count_at_app seqs s i k :
+    count_at (seqs ++ [s]) i k
+    = (count_at seqs i k + (if match nth_error s i with Some x => (x =? k)%nat | None => false end then 1 else 0))%N.
+  Proof.
+    unfold count_at. rewrite filter_app, app_length. simpl.
+    destruct (match nth_error s i with Some x => x =? k | None => false end); simpl; lia.
+  Qed.
+
+  (* the loop invariant: after the sequences [done] the matrix holds their counts *)
+  Lemma from_seqs_loop_ok L : forall seqs d n done,
+    cwf L d -> (forall i k, cell d i k = count_at done i k) ->
+    Forall (fun s => length s = L /\ seq_wf s) seqs ->
+    exists d', from_seqs_loop K (Some d) n seqs = Ok (d', (n + N.of_nat (length seqs))%N) /\
+               cwf L d' /\ forall i k, cell d' i k = count_at (done ++ seqs) i k.
+  Proof.
+    induction seqs as [|s rest IH]; intros d n done Hd Hc Hs; simpl.
+    - exists d. rewrite N.add_0_r, app_nil_r. auto.
+    - inversion Hs as [|? ? [Hl Hw] Hrest]; subst.
+      destruct Hd as [Hdl Hdr].
+      rewrite Hdl, Nat.eqb_refl.
+      destruct (add_seq_from_spec (length s) s d 0 (conj Hdl Hdr) Hw ltac:(lia)) as [Hwf Hcell].
+      destruct (IH (add_seq_from d 0 s) (n + 1)%N (done ++ [s]) Hwf) as [d' [Hrun [Hwf' Hc']]].
+      + intros i k. rewrite Hcell, Hc, count_at_app. simpl. rewrite Nat.sub_0_r. reflexivity.
+      + exact Hrest.
+      + exists d'. split; [|split; [exact Hwf'|]].
+        * rewrite Hrun. f_equal. f_equal. lia.
+        * intros i k. rewrite Hc'. rewrite <- app_assoc. reflexivity.
+  Qed.
+
+  Lemma add_seq_from_length : forall s d i0, length (add_seq_from d i0 s) = length d.
+  Proof.
+    induction s as [|x r IH]; intros d i0; simpl; auto.
+    rewrite IH. unfold incr_cell. apply upd_length.
+  Qed.
+
+  Lemma from_seqs_loop_err L : forall seqs d n,
+    length d = L -> forallb (fun s => length s =? L) seqs = false ->
+    from_seqs_loop K (Some d) n seqs = Err 1.
+  Proof.
+    induction seqs as [|s rest IH]; intros d n Hd Hall; simpl in *; [discriminate|].
+    rewrite Hd. destruct (Nat.eqb_spec (length s) L) as [Hl|Hl]; simpl in *; [|reflexivity].
+    apply IH; [rewrite add_seq_from_length; exact Hd | exact Hall].
+  Qed.
+
+  Lemma count_at_nil i k : count_at [] i k = 0%N.
+  Proof. reflexivity. Qed.
+
+  (* CountMatrix::from_sequences *)
+  Lemma from_sequences_spec seqs :
+    Forall seq_wf seqs ->
+    let L := match seqs with [] => 0 | s :: _ => length s end in
+    if forallb (fun s => length s =? L) seqs
+    then exists d, from_sequences K seqs = Ok (d, N.of_nat (length seqs)) /\ cwf L d /\
+                   forall i k, cell d i k = count_at seqs i k
+    else from_sequences K seqs = Err 1.
+  Proof.
+    intros Hw L. unfold from_sequences.
+    destruct seqs as [|s rest].
+    - simpl. exists []. repeat split; auto. intros i k. destruct i, k; reflexivity.
+    - assert (E : from_seqs_loop K None 0%N (s :: rest) = from_seqs_loop K (Some (czero K (length s))) 0%N (s :: rest))
+        by reflexivity.
+      rewrite E. subst L.
+      destruct (forallb (fun s0 => length s0 =? length s) (s :: rest)) eqn:Hall.
+      + destruct (from_seqs_loop_ok (length s) (s :: rest) (czero K (length s)) 0%N [] (czero_wf _)) as [d [Hrun [Hwf Hc]]].
+        * intros i k. rewrite czero_cell. reflexivity.
+        * rewrite forallb_forall in Hall. rewrite Forall_forall in *. intros x Hx.
+          split; [apply Nat.eqb_eq, Hall, Hx | apply Hw, Hx].
+        * exists d. rewrite Hrun. simpl app in Hc. auto.
+      + apply (from_seqs_loop_err (length s)); [apply repeat_length | exact Hall].
+  Qed.
+
+  (* the counts as one matrix equality *)
+  Lemma cwf_cells_eq L d : cwf L d -> forall seqs, (forall i k, cell d i k = count_at seqs i k) ->
+    d = counts_spec_matrix K L seqs.
+  Proof.
+    intros [Hl Hr] seqs Hc. unfold counts_spec_matrix.
+    apply (nth_ext _ _ [] []).
+    - rewrite map_length, seq_length. exact Hl.
+    - intros i Hi. rewrite Hl in Hi.
+      rewrite (nth_indep (map (fun i => map (fun k => count_at seqs i k) (seq 0 K)) (seq 0 L)) [] (map (fun k => count_at seqs 0 k) (seq 0 K))) by (rewrite map_length, seq_length; exact Hi).
+      rewrite (map_nth (fun i => map (fun k => count_at seqs i k) (seq 0 K)) (seq 0 L) 0 i).
+      rewrite seq_nth by exact Hi. simpl.
+      assert (Hrow : length (nth i d []) = K).
+      { rewrite Forall_forall in Hr. apply Hr, nth_In. lia. }
+      apply (nth_ext _ _ 0%N 0%N).
+      + rewrite map_length, seq_length. exact Hrow.
+      + intros k Hk. rewrite Hrow in Hk.
+        rewrite (nth_indep (map (fun k => count_at seqs i k) (seq 0 K)) 0%N (count_at seqs i 0)) by (rewrite map_length, seq_length; exact Hk).
+        rewrite (map_nth (fun k => count_at seqs i k) (seq 0 K) 0 k). rewrite seq_nth by exact Hk.
+        apply Hc.
+  Qed.
+End CountProofs.
+
+(* ---------- conversions, any carrier ---------- *)
+
+Section ConvProofs.
+  Context {T : Type}.
+  Variable O : NumOps T.
+  Variable K : nat.
+  Variables flog2 flog10 fln : T -> T.
+
+  (* one step (into_scoring) = two steps (to_weight, then to_scoring): same operations in
+     the same order; the zero-background convention needs log2(0.0) = -inf *)
+  Lemma one_step_two_step bg m :
+    flog2 (n_zero O) = n_ninf O -> n_eqb O (n_two O) (n_two O) = true ->
+    into_scoring O flog2 bg m = to_scoring O flog2 flog10 fln (to_weight O bg m).
+  Proof.
+    intros Hz H2. unfold into_scoring, to_scoring, to_scoring_with_base, to_weight.
+    rewrite map_map. apply map_ext. intros row.
+    revert bg. induction row as [|x r IH]; intros [|f bg]; simpl; auto.
+    rewrite IH. f_equal.
+    unfold into_scoring_cell, weight_cell, flog. rewrite H2.
+    destruct (n_eqb O f (n_zero O)); [symmetry; exact Hz | reflexivity].
+  Qed.
+
+  (* cells *)
+  Lemma to_weight_cell bg m i k d : i < length m -> k < length (nth i m []) -> k < length bg ->
+    nth k (nth i (to_weight O bg m) []) d
+    = if n_eqb O (nth k bg d) (n_zero O) then n_zero O else n_div O (nth k (nth i m []) d) (nth k bg d).
+  Proof.
+    intros Hi Hk Hb. unfold to_weight.
+    rewrite (nth_indep _ [] (map2 (weight_cell O) [] bg)) by (rewrite map_length; exact Hi).
+    rewrite (map_nth (fun row => map2 (weight_cell O) row bg) m [] i).
+    rewrite (nth_map2 (weight_cell O) _ bg k d d d) by assumption. reflexivity.
+  Qed.
+
+  Lemma into_scoring_cell_spec bg m i k d : i < length m -> k < length (nth i m []) -> k < length bg ->
+    nth k (nth i (into_scoring O flog2 bg m) []) d
+    = if n_eqb O (nth k bg d) (n_zero O) then n_ninf O
+      else flog2 (n_div O (nth k (nth i m []) d) (nth k bg d)).
+  Proof.
+    intros Hi Hk Hb. unfold into_scoring.
+    rewrite (nth_indep _ [] (map2 (into_scoring_cell O flog2) [] bg)) by (rewrite map_length; exact Hi).
+    rewrite (map_nth (fun row => map2 (into_scoring_cell O flog2) row bg) m [] i).
+    rewrite (nth_map2 (into_scoring_cell O flog2) _ bg k d d d) by assumption. reflexivity.
+  Qed.
+
+  Lemma to_scoring_with_base_cell base m i k d : i < length m -> k < length (nth i m []) ->
+    nth k (nth i (to_scoring_with_base O flog2 flog10 fln base m) []) d
+    = flog O flog2 flog10 fln base (nth k (nth i m []) d).
+  Proof.
+    intros Hi Hk. unfold to_scoring_with_base.
+    rewrite (nth_indep _ [] (map (flog O flog2 flog10 fln base) [])) by (rewrite map_length; exact Hi).
+    rewrite (map_nth (map (flog O flog2 flog10 fln base)) m [] i).
+    rewrite (nth_indep _ d (flog O flog2 flog10 fln base d)) by (rewrite map_length; exact Hk).
+    apply map_nth.
+  Qed.
+
+  (* acceptance: Background::new *)
+  Definition in01 (f : T) : bool := n_leb O (n_zero O) f && n_leb O f (n_one O).
+
+  Lemma bg_new_loop_spec : forall l sum,
+    if forallb in01 l then bg_new_loop O sum l = Ok (fold_left (n_add O) l sum)
+    else bg_new_loop O sum l = Err 1.
+  Proof.
+    induction l as [|f r IH]; intros sum; simpl; auto.
+    fold (in01 f). destruct (in01 f); simpl; [apply IH | reflexivity].
+  Qed.
+
+  Lemma bg_new_spec l :
+    bg_new O l = if forallb in01 l && n_eqb O (fold_left (n_add O) l (n_zero O)) (n_one O)
+                 then Ok l else Err 1.
+  Proof.
+    unfold bg_new. pose proof (bg_new_loop_spec l (n_zero O)) as H.
+    destruct (forallb in01 l); rewrite H; simpl; reflexivity.
+  Qed.
+
+  (* acceptance: FrequencyMatrix::new *)
+  Lemma freq_new_spec m :
+    freq_new O m = if forallb (freq_row_ok O) m then Ok m else Err 1.
+  Proof. reflexivity. Qed.
+
+  (* Background::from_counts *)
+  Lemma bg_from_counts_spec counts :
+    let total := fold_left N.add counts 0%N in
+    bg_from_counts O counts
+    = if (total =? 0)%N then Err 1
+      else Ok (map (fun c => n_div O (n_of_N O c) (n_of_N O total)) counts).
+  Proof. reflexivity. Qed.
+End ConvProofs.
+
+(* ---------- min_score <= window <= max_score over an ordered monoid ---------- *)
+
+Section MinMax.
+  Context {T : Type}.
+  Variable O : NumOps T.
+  Variable K : nat.
+  Variable le : T -> T -> Prop.
+  Hypothesis le_refl : forall a, le a a.
+  Hypothesis le_trans : forall a b c, le a b -> le b c -> le a c.
+  Hypothesis add_mono : forall a b c d, le a b -> le c d -> le (n_add O a c) (n_add O b d).
+  Hypothesis cmp_le : forall a b,
+    match n_cmp O a b with
+    | Some Lt => le a b
+    | Some Eq => le a b /\ le b a
+    | Some Gt => le b a
+    | None => True
+    end.
+  Hypothesis zeros : le (n_szero O) (n_zero O) /\ le (n_zero O) (n_szero O).
+
+  Lemma min_by_from_le : forall l best v, min_by_from O best l = Ok v ->
+    le v best /\ Forall (fun y => le v y) l.
+  Proof.
+    induction l as [|y r IH]; intros best v H; simpl in H.
+    - inversion H; subst. split; [apply le_refl | constructor].
+    - pose proof (cmp_le best y) as Hc.
+      destruct (n_cmp O best y) as [[| |]|]; try discriminate.
+      + destruct (IH best v H) as [H1 H2]. destruct Hc as [Hby _].
+        split; [exact H1|]. constructor; [eapply le_trans; eauto | exact H2].
+      + destruct (IH best v H) as [H1 H2].
+        split; [exact H1|]. constructor; [eapply le_trans; eauto | exact H2].
+      + destruct (IH y v H) as [H1 H2].
+        split; [eapply le_trans; eauto|]. constructor; [exact H1 | exact H2].
+  Qed.
+
+  Lemma max_by_from_le : forall l best v, max_by_from O best l = Ok v ->
+    le best v /\ Forall (fun y => le y v) l.
+  Proof.
+    induction l as [|y r IH]; intros best v H; simpl in H.
+    - inversion H; subst. split; [apply le_refl | constructor].
+    - pose proof (cmp_le best y) as Hc.
+      destruct (n_cmp O best y) as [[| |]|]; try discriminate.
+      + destruct (IH y v H) as [H1 H2]. destruct Hc as [Hby _].
+        split; [eapply le_trans; eauto|]. constructor; [exact H1 | exact H2].
+      + destruct (IH y v H) as [H1 H2].
+        split; [eapply le_trans; eauto|]. constructor; [exact H1 | exact H2].
+      + destruct (IH best v H) as [H1 H2].
+        split; [exact H1|]. constructor; [eapply le_trans; eauto | exact H2].
+  Qed.
+
+  Lemma row_min_le row v x d : row_min O K row = Ok v -> x < K - 1 -> x < length row ->
+    le v (nth x row d).
+  Proof.
+    intros H Hx Hl. unfold row_min in H.
+    assert (Hn : nth x row d = nth x (firstn (K - 1) row) d).
+    { rewrite <- (firstn_skipn (K - 1) row) at 1. apply app_nth1. rewrite firstn_length. lia. }
+    assert (Hlen : x < length (firstn (K - 1) row)) by (rewrite firstn_length; lia).
+    rewrite Hn. destruct (firstn (K - 1) row) as [|y r]; [simpl in Hlen; lia|].
+    destruct (min_by_from_le r y v H) as [H1 H2].
+    destruct x as [|x]; simpl; [exact H1|].
+    rewrite Forall_forall in H2. apply H2. apply nth_In. simpl in Hlen. lia.
+  Qed.
+
+  Lemma row_max_le row v x d : row_max O K row = Ok v -> x < K - 1 -> x < length row ->
+    le (nth x row d) v.
+  Proof.
+    intros H Hx Hl. unfold row_max in H.
+    assert (Hn : nth x row d = nth x (firstn (K - 1) row) d).
+    { rewrite <- (firstn_skipn (K - 1) row) at 1. apply app_nth1. rewrite firstn_length. lia. }
+    assert (Hlen : x < length (firstn (K - 1) row)) by (rewrite firstn_length; lia).
+    rewrite Hn. destruct (firstn (K - 1) row) as [|y r]; [simpl in Hlen; lia|].
+    destruct (max_by_from_le r y v H) as [H1 H2].
+    destruct x as [|x]; simpl; [exact H1|].
+    rewrite Forall_forall in H2. apply H2. apply nth_In. simpl in Hlen. lia.
+  Qed.
+
+  Lemma fold_add_mono : forall l1 l2 a b, Forall2 le l1 l2 -> le a b ->
+    le (fold_left (n_add O) l1 a) (fold_left (n_add O) l2 b).
+  Proof.
+    induction l1 as [|x r IH]; intros l2 a b H Hab; inversion H; subst; simpl; auto.
+  Qed.
+
+  Lemma map_res_ok {A B} (f : A -> res B) : forall l vs, map_res f l = Ok vs -> Forall2 (fun a v => f a = Ok v) l vs.
+  Proof.
+    induction l as [|a r IH]; intros vs H; simpl in H.
+    - inversion H. constructor.
+    - destruct (f a) eqn:Ea; simpl in H; try discriminate.
+      destruct (map_res f r) eqn:Er; simpl in H; try discriminate.
+      inversion H; subst. constructor; auto.
+  Qed.
+
+  (* the cells of a wildcard-free window, row by row *)
+  Lemma window_bounds : forall m s mins maxs,
+    Forall (fun row => length row = K) m ->
+    Forall2 (fun row v => row_min O K row = Ok v) m mins ->
+    Forall2 (fun row v => row_max O K row = Ok v) m maxs ->
+    length m <= length s -> Forall (fun x => x < K - 1) (firstn (length m) s) ->
+    Forall2 le mins (map2 (fun row x => nth x row (n_zero O)) m s) /\
+    Forall2 le (map2 (fun row x => nth x row (n_zero O)) m s) maxs.
+  Proof.
+    induction m as [|row m IH]; intros s mins maxs Hrows Hmin Hmax Hlen Hclean.
+    - inversion Hmin; inversion Hmax; subst. simpl. split; constructor.
+    - destruct s as [|x s]; [simpl in Hlen; lia|].
+      pose proof (Forall_inv Hrows) as Hrow. pose proof (Forall_inv_tail Hrows) as Hrows'. clear Hrows.
+      simpl in Hclean.
+      pose proof (Forall_inv Hclean) as Hx. pose proof (Forall_inv_tail Hclean) as Hclean'. clear Hclean.
+      revert Hrow Hx.
+      inversion Hmin as [|? vmin ? mins' Hv Hmin']; inversion Hmax as [|? vmax ? maxs' Hw Hmax']; subst.
+      intros Hrow Hx.
+      destruct (IH s mins' maxs' Hrows' Hmin' Hmax' ltac:(simpl in Hlen; lia) Hclean') as [H1 H2].
+      simpl. split; constructor; auto.
+      + apply row_min_le; [exact Hv | exact Hx | lia].
+      + apply row_max_le; [exact Hw | exact Hx | lia].
+  Qed.
+
+  Lemma window_between_min_max_gen C m s pos mn mx :
+    0 < C -> Forall (fun row => length row = K) m ->
+    pos + length m <= length s ->
+    Forall (fun x => x < K - 1) (firstn (length m) (skipn pos s)) ->
+    min_score O K m = Ok mn -> max_score O K m = Ok mx ->
+    exists w, score_position O K C m s pos = Ok w /\ le mn w /\ le w mx.
+  Proof.
+    intros HC Hrows Hpos Hclean Hmn Hmx.
+    rewrite (score_position_in O K C m s pos HC Hpos).
+    eexists; split; [reflexivity|].
+    unfold min_score in Hmn. unfold max_score in Hmx.
+    destruct (map_res (row_min O K) m) as [mins| | |] eqn:Emin; simpl in Hmn; try discriminate.
+    destruct (map_res (row_max O K) m) as [maxs| | |] eqn:Emax; simpl in Hmx; try discriminate.
+    inversion Hmn; inversion Hmx; subst.
+    destruct (window_bounds m (skipn pos s) mins maxs Hrows (map_res_ok _ _ _ Emin) (map_res_ok _ _ _ Emax)) as [H1 H2].
+    - rewrite skipn_length. lia.
+    - exact Hclean.
+    - unfold fsum, window_terms. split; apply fold_add_mono; auto; apply zeros.
+  Qed.
+End MinMax.
